@@ -2182,3 +2182,4 @@ def replay(ctx, payload):
         if _APLX[0] and os.path.exists(_APLX[0]):
             os.unlink(_APLX[0])
             _APLX[0] = None
+THEOREMS += ['gen_localEth', 'gen_getConnection']   # translator tie: generated function bodies = model (Props/C18Gen.lean)
